@@ -64,19 +64,20 @@ fn g_props(ps: &[(u64, u64)]) -> String {
 fn g_ns(v: &[u64]) -> String {
     g_list(v.iter().map(|x| x.to_string()))
 }
-fn g_op(o: &Op) -> String {
+/// `h` = the id the implementation handed out (the model's allocation hint)
+fn g_op(o: &Op, h: u64) -> String {
     match o {
-        Op::CreateNode(l) => format!("CreateNode {}", g_ns(l)),
-        Op::CreateNodeP(l, p) => format!("CreateNodeP {} {}", g_ns(l), g_props(p)),
-        Op::CreateNodeStub(l) => format!("CreateNodeStub {}", l),
+        Op::CreateNode(l) => format!("CreateNode {} {}", h, g_ns(l)),
+        Op::CreateNodeP(l, p) => format!("CreateNodeP {} {} {}", h, g_ns(l), g_props(p)),
+        Op::CreateNodeStub(l) => format!("CreateNodeStub {} {}", h, l),
         Op::SetNodeProp(i, k, v) => format!("SetNodeProp {} {} {}", i, k, v),
         Op::RemoveNodeProp(i, k) => format!("RemoveNodeProp {} {}", i, k),
         Op::AddLabel(i, l) => format!("AddLabel {} {}", i, l),
         Op::RemoveLabel(i, l) => format!("RemoveLabel {} {}", i, l),
         Op::DeleteNode(i) => format!("DeleteNode {}", i),
-        Op::CreateEdge(a, b, t) => format!("CreateEdge {} {} {}", a, b, t),
-        Op::CreateEdgeP(a, b, t, p) => format!("CreateEdgeP {} {} {} {}", a, b, t, g_props(p)),
-        Op::CreateEdgeStub(a, b, t) => format!("CreateEdgeStub {} {} {}", a, b, t),
+        Op::CreateEdge(a, b, t) => format!("CreateEdge {} {} {} {}", h, a, b, t),
+        Op::CreateEdgeP(a, b, t, p) => format!("CreateEdgeP {} {} {} {} {}", h, a, b, t, g_props(p)),
+        Op::CreateEdgeStub(a, b, t) => format!("CreateEdgeStub {} {} {} {}", h, a, b, t),
         Op::SetEdgeProp(e, k, v) => format!("SetEdgeProp {} {} {}", e, k, v),
         Op::RemoveEdgeProp(e, k) => format!("RemoveEdgeProp {} {}", e, k),
         Op::DeleteEdge(e) => format!("DeleteEdge {}", e),
@@ -476,8 +477,17 @@ fn impl_dump(s: &GraphStore, maxn: u64, maxe: u64, unsorted: bool, tstale: bool,
     rows
 }
 
+/// rows as hexadecimal literals: a leading 1, then one digit per number (all < 16; larger
+/// values, which only a defect can produce, are clamped to 15 and so still disagree)
 fn g_rows(rows: &[Row]) -> String {
-    g_list(rows.iter().map(|r| g_ns(r)))
+    g_list(rows.iter().map(|r| {
+        let mut s = String::with_capacity(r.len() + 3);
+        s.push_str("0x1");
+        for d in r {
+            s.push(std::char::from_digit((*d).min(15) as u32, 16).unwrap());
+        }
+        s
+    }))
 }
 
 struct Stats {
@@ -604,7 +614,7 @@ fn run_case(out: &mut Out, mut next: impl FnMut(&Ref, u64, u64, usize) -> Option
             }
             d = format!("(Some ({}, {}, {}))", dn, de, g_rows(&rows));
         }
-        steps.push(format!("({}, {}, {})", g_op(&o), g_ns(&got), d));
+        steps.push(format!("({}, {}, {})", g_op(&o, if got[0] == 0 { got[1] } else { 0 }), g_ns(&got), d));
         ops.push(o);
         i += 1;
     }
@@ -647,7 +657,7 @@ fn run_case(out: &mut Out, mut next: impl FnMut(&Ref, u64, u64, usize) -> Option
         out.count("two_or_more_segments");
     }
     out.count_n("ops", ops.len() as u64);
-    let human = format!("{}", g_list(ops.iter().map(g_op)));
+    let human = format!("{}", g_list(ops.iter().map(|o| g_op(o, 0))));
     let ci = out.case(g_list(steps), human.clone(), ops.len() > 1);
     if let Some(b) = bad {
         out.fail(ci, &human, &b, None);
@@ -707,7 +717,7 @@ fn rand_op(r: &mut Rng, rf: &Ref, maxn: u64, maxe: u64) -> Op {
 fn main() {
     let args = parse_args();
     quiet_panics();
-    let mut out = Out::new(&args, "From Verif Require Import GraphStore.", "GraphStore.case", "GraphStore.check_case", 40);
+    let mut out = Out::new(&args, "From Verif Require Import GraphStore.", "GraphStore.case", "GraphStore.check_case", if args.thorough { 500 } else { 250 });
     out.rule = "exhaustive: every sequence of length 1..L (L=4 quick, 5 thorough) over a 10-operation alphabet \
                 (create edge 1->2, stub edge 2->1, self-loop on 1, delete edge 1, delete edge 2, delete node 1, create node, \
                 compact, finish_bulk_load, set property on edge 1) after two node creations, every read view dumped after the \
@@ -732,6 +742,17 @@ fn main() {
     ];
     let maxlen = if args.thorough { 5 } else { 4 };
     let base = vec![Op::CreateNode(vec![0]), Op::CreateNodeP(vec![0, 1], vec![(0, 1)])];
+    // random histories are interleaved with the exhaustive ones so that shards are balanced
+    let (cases, maxops) = if args.thorough { (6000u64, 120u64) } else { (260u64, 40u64) };
+    let exhaustive_total: u64 = (1..=maxlen).map(|l| (alphabet.len() as u64).pow(l as u32)).sum();
+    let every = (exhaustive_total / cases).max(1);
+    let mut emitted = 0u64;
+    let mut rc = 0u64;
+    let mut random_case = |out: &mut Out, c: u64| {
+        let mut r = Rng::for_case(args.seed, c);
+        let nops = r.range(4, maxops) as usize;
+        run_case(out, |rf, maxn, maxe, i| if i < nops { Some(rand_op(&mut r, rf, maxn, maxe)) } else { None }, |_, _| true, None);
+    };
     for len in 1..=maxlen {
         let total = (alphabet.len() as u64).pow(len as u32);
         for code in 0..total {
@@ -743,14 +764,16 @@ fn main() {
             }
             let n = seq.len();
             run_case(&mut out, |_, _, _, i| seq.get(i).cloned(), |_, _| false, Some(n));
+            emitted += 1;
+            if emitted % every == 0 && rc < cases {
+                random_case(&mut out, rc);
+                rc += 1;
+            }
         }
     }
-    // ---- random histories ----
-    let (cases, maxops) = if args.thorough { (6000u64, 120u64) } else { (260u64, 40u64) };
-    for c in 0..cases {
-        let mut r = Rng::for_case(args.seed, c);
-        let nops = r.range(4, maxops) as usize;
-        run_case(&mut out, |rf, maxn, maxe, i| if i < nops { Some(rand_op(&mut r, rf, maxn, maxe)) } else { None }, |_, _| true, None);
+    while rc < cases {
+        random_case(&mut out, rc);
+        rc += 1;
     }
     // ---- the order named by the property: compaction, delete, id reuse (always present) ----
     for t in 0..3u64 {
